@@ -472,6 +472,9 @@ func (env *Env) evalCall(n *ECall) TV {
 		return TV{T: StrAt(arg(0).T, arg(1).T), Typ: types.Typ[types.Uint8]}
 	case "substr":
 		return TV{T: App(SStr, "str_sub", arg(0).T, arg(1).T, arg(2).T), Typ: types.Typ[types.String]}
+	case "strOfBytes":
+		e.declareFun("str_of_arr", []Sort{SInt}, SStr)
+		return TV{T: App(SStr, "str_of_arr", SliceArr(arg(0).T)), Typ: types.Typ[types.String]}
 	case "arr":
 		return TV{T: SliceArr(arg(0).T)}
 	case "off":
